@@ -19,6 +19,8 @@ func main() {
 		cmdVC(os.Args[2:])
 	case "check":
 		cmdCheck(os.Args[2:])
+	case "sweep":
+		cmdSweep(os.Args[2:])
 	default:
 		fmt.Fprintln(os.Stderr, "unknown command", os.Args[1])
 		os.Exit(2)
